@@ -8,7 +8,8 @@ import Crusta.Proofs.Wp
 `EncInv st e Γ T F dirty` relates the solver's framework `st`, the encoder tables `e` and the clause
 database `Γ` of the shared SAT solver.  `T` / `F` are ghost sets: the variables forced true
 (variables of removed arguments, selectors of finished searches) and forced false (retired
-selectors) by unit clauses.  `dirty` marks the arguments whose attack constraints are stale (only
+selectors) by unit clauses; a ghost variable occurs in the database (so a variable above the solver's
+`n_vars` is in neither set).  `dirty` marks the arguments whose attack constraints are stale (only
 during the replay of buffered updates).
 
 With nothing dirty the invariant gives both directions between the models of `Γ` under the current
@@ -85,6 +86,13 @@ def ClauseKind (st : Store) (e : Enc) (T F : Nat → Bool) (dirty : Nat → Prop
   (∃ t, T t = true ∧ pl t ∈ c) ∨
   (∃ i s, e.sv i = some s ∧ nl s ∈ c ∧ (¬ dirty i → ∃ cl, CurClauses st e i s cl ∧ c ∈ cl))
 
+/-- the variable occurs in a clause of the database -/
+def Occurs (Γ : Cnf) (v : Nat) : Prop := ∃ c ∈ Γ, ∃ l ∈ c, l.var = v
+
+theorem Occurs.mono {Γ Γ' : Cnf} {v : Nat} (h : Occurs Γ v) (hsub : ∀ c ∈ Γ, c ∈ Γ') : Occurs Γ' v := by
+  obtain ⟨c, hc, l, hl, hv⟩ := h
+  exact ⟨c, hsub c hc, l, hl, hv⟩
+
 structure EncInv (st : Store) (e : Enc) (Γ : Cnf) (T F : Nat → Bool) (dirty : Nat → Prop) : Prop where
   vars_pos : 1 ≤ e.vars.length
   sz_a : e.argVar.length = st.labels.length
@@ -98,12 +106,13 @@ structure EncInv (st : Store) (e : Enc) (Γ : Cnf) (T F : Nat → Bool) (dirty :
       (1 ≤ v ∧ i < st.labels.length) ∧ (e.ty (v - 1) = .arg i ∨ (T (v - 1) = true ∧ st.hasId i = false))
   asm : ∀ l, l ∈ e.assumptions ↔ ∃ s i, l = pl s ∧ e.ty s = .sel i
   asm_nodup : e.assumptions.Nodup
-  ghostT : ∀ v, T v = true → e.ty v = .ignored ∧ v < e.vars.length
-  ghostF : ∀ v, F v = true → e.ty v = .ignored ∧ v < e.vars.length
+  ghostT : ∀ v, T v = true → e.ty v = .ignored ∧ Occurs Γ v
+  ghostF : ∀ v, F v = true → e.ty v = .ignored ∧ Occurs Γ v
   ghostTF : ∀ v, ¬ (T v = true ∧ F v = true)
   acc : ∀ c ∈ Γ, ClauseKind st e T F dirty c
   act : ∀ i, st.hasId i = true → ¬ dirty i →
       ∃ s cl, e.sv i = some s ∧ CurClauses st e i s cl ∧ ∀ c ∈ cl, c ∈ Γ
+  disj_cl : ∀ v i, e.ty (v + 1) = .disj i → [nl v, nl (v + 1)] ∈ Γ
 
 /-- the set of arguments read off an assignment -/
 def setOf (st : Store) (e : Enc) (ν : Asg) : ASet := fun i => st.hasId i && ν (e.xv i)
